@@ -278,7 +278,10 @@ impl Future for GateWait<'_> {
     fn poll(self: Pin<&mut Self>, cx: &mut TaskCx<'_>) -> Poll<()> {
         use std::sync::atomic::Ordering::Relaxed;
         if self.gates.polling[self.g].swap(true, Relaxed) {
-            self.gates.overlaps.fetch_add(1, Relaxed);
+            if self.gates.overlaps.fetch_add(1, Relaxed) == 0 {
+                // Announced at once: the process may not survive a double poll.
+                eprintln!("NXV-VIOLATION: C05/model-polled-by-two-threads-at-once a poll of the handler future of replier {} began on thread {:?} while another poll of the same model was still running", self.g, std::thread::current().id());
+            }
         }
         let r = {
             let mut i = self.gates.inner.lock().unwrap();
